@@ -90,9 +90,11 @@ def seek (o : FileObj β) (p whence : Int) : Res Int (FileObj β) :=
          else (.ok 0, { o with f := o.f.seek 0 }))
       else (.ok t, { o with f := o.f.seek t.toNat, stale := false })
 
-/-- `o.write(s)` → `len(s)` -/
+/-- `o.write(s)` → `len(s)`.  Writing NOTHING changes nothing, also past the end of the data (`File.write` would pad
+    the gap there; inside the data it is the identity for `s = []`, `PyRtC18.File_write_nil`) -/
 def write [Inhabited β] (o : FileObj β) (s : List β) : Res Int (FileObj β) :=
   if o.closed then (.error .ValueError, o)
+  else if s.isEmpty then (.ok 0, o)
   else (.ok (s.length : Int), { o with f := o.f.write s, stale := o.real })
 
 /-- `o.readline()` / `o.readline(n)`: a negative limit is no limit -/
